@@ -251,7 +251,7 @@ func runHistories(ctx context.Context, c *vk.Ctx, dir string) {
 			}
 
 			// --- ascending walks through the API, several page sizes, with and without type filter
-			for _, typ := range []string{"", "doc", "folder", "user"} {
+			for _, typ := range []string{"", "doc", "docs", "user"} {
 				for _, ps := range []int32{1, 2, 7, 100} {
 					if typ != "" && ps != 1 && ps != 100 {
 						continue
@@ -302,7 +302,7 @@ func runHistories(ctx context.Context, c *vk.Ctx, dir string) {
 			}
 
 			// --- descending datastore walks = exact reverse of the ascending datastore walk
-			for _, typ := range []string{"", "doc", "folder"} {
+			for _, typ := range []string{"", "doc", "docs"} {
 				filter := storage.ReadChangesFilter{ObjectType: typ}
 				asc, err := storekit.WalkChangesMax(ctx, env.DS, env.Store, filter, false, 100, 2*len(m.Log)+10)
 				if err != nil {
